@@ -88,6 +88,11 @@ def check(repo: Repo, run: Run) -> None:
     mod = repo.mod("xlate")
     g = grammar(repo)
     cls = mod.cls("C7N_Rewriter")
+    # V9: `op: glob` is emitted as a call of c7nlib.glob; the relation it computes must be the shell-pattern match on
+    # the whole value (rule shared with C17.X4)
+    # likewise the other c7nlib helpers the emitted text calls for value_type / op (normalize, unique_size, intersect,
+    # difference, present/absent, key, parse_cidr, version ...): instances shared with C17.X4
+    run.borrow(repo, "C17", "C19.V9", lambda o: o["rule"] == "C17.X4", 10)
     # V1 -----------------------------------------------------------------
     aom = None
     for n in cls.body:
